@@ -20,7 +20,9 @@ EXPLANATION = (
     "together. R01.3: under the collapse abstraction (all evaluation points -> base point) each step equals "
     "y0 + F h + G W plus tabled correction atoms only. R01.4: strong_order evaluated per (solver, noise type) from "
     "the constructors is <= the order established in the literature (frozen table). R02.4: Roessler order "
-    "conditions on the imported tableaus. Not decided: the limit dt -> 0, error constants, adaptive accuracy."
+    "conditions on the imported tableaus. R02.3 (shared with C02): weight-1 condition of the Stratonovich RK-type steps and of "
+    "derivative-free Milstein (finite difference taken at one time). Not decided: the limit dt -> 0, error constants, "
+    "adaptive accuracy."
 )
 
 # Orders established in the literature (DESIGN.md 9.4).  key: (class name, noise kind) with kind in
@@ -162,3 +164,6 @@ def run(ctx):
     ctx.guard(r01_3)
     ctx.guard(r01_4)
     ctx.guard(c02.r02_4)
+    # converging to the solution of the *declared* calculus at the advertised order needs the weight-1 condition
+    # (sum v_i c_i = 1/2 for Stratonovich RK-type steps; exact 1/2 and a single evaluation time for derivative-free Milstein)
+    ctx.guard(c02.r02_3)
